@@ -741,7 +741,217 @@ def exec_handed(case):
     return evs, mism, tags
 
 
-EXEC = {'handed': exec_handed, 'clamp_tlc': exec_clamp_tlc, 'clamp_rand': exec_clamp_rand, 'bep': exec_bep,
+# --------------------------------------------------------------------------
+# second-use histories: build, evaluate, assign public attributes, evaluate again
+# --------------------------------------------------------------------------
+def _desc_value(rx, desc, T):
+    kc = 'kcal/mol'
+    return {
+        'delta_H': lambda: rx.get_delta_H(units=kc, T=T), 'rev_delta_H': lambda: rx.get_delta_H(units=kc, T=T, rev=True),
+        'reactants_H': lambda: rx.get_H_state(state='reactants', units=kc, T=T),
+        'products_H': lambda: rx.get_H_state(state='products', units=kc, T=T),
+        'delta_E': lambda: rx.get_delta_E(units=kc, T=T), 'rev_delta_E': lambda: rx.get_delta_E(units=kc, T=T, rev=True),
+        'reactants_E': lambda: rx.get_E_state(state='reactants', units=kc, T=T),
+        'products_E': lambda: rx.get_E_state(state='products', units=kc, T=T)}[desc]
+
+
+def _bep_vector(evs, b, rx, T):
+    """what a BEP object answers for one reaction (same calls on the edited and on the fresh object)"""
+    out = []
+    for name, fn in (('E_act fwd', lambda: b.get_E_act(units='kcal/mol', reaction=rx, rev=False, T=T)),
+                     ('E_act rev', lambda: b.get_E_act(units='kcal/mol', reaction=rx, rev=True, T=T)),
+                     ('EoRT_act fwd', lambda: b.get_EoRT_act(reaction=rx, rev=False, T=T)),
+                     ('EoRT_act rev', lambda: b.get_EoRT_act(reaction=rx, rev=True, T=T)),
+                     ('HoRT', lambda: b.get_HoRT(reaction=rx, T=T)),
+                     ('UoRT', lambda: b.get_UoRT(reaction=rx, T=T)),
+                     ('GoRT', lambda: b.get_GoRT(reaction=rx, T=T))):
+        v = _call(evs, 'BEP.' + name, fn)
+        if v is None:
+            return None
+        out.append(v)
+    return out
+
+
+def _edit_class(old, new):
+    fam = lambda d: 'rev' if d.startswith('rev_delta') else ('delta' if d.startswith('delta') else 'state')   # noqa
+    if fam(old) == fam(new):
+        return 'within'
+    if 'state' in (fam(old), fam(new)):
+        return 'nondelta'
+    return 'cross'
+
+
+def exec_bepedit(case):
+    """Build a BEP, evaluate, assign public attributes one after the other and re-evaluate:
+    BepRelation / BepDifference / BepViaReaction on the edited object and EditedEqualsFresh."""
+    from pmutt import constants as c
+    rnd = random.Random(case['cseed'])
+    cls, bcls = case['cls'], case['bcls']
+    T = rnd.choice([298.15, rnd.uniform(250., 1200.)])
+    site = L.cat_site('PT', 2.5e-9)
+    b = L.bep(bcls, 'BEP1', case['slope'], case['icpt'], case['desc'])
+    rxs = []
+    for j in range(2):                             # two reactions share the BEP (edit 'reaction')
+        hr, hp = _rand_state(rnd)
+        sps = [_mk_species('statmech', '%s%d' % (nm, j), h, 0., 0., T, phase='S') for nm, h in (('R', hr), ('P', hp))]
+        if cls == 'SurfaceReaction':
+            L.omkm_phases([], {'terrace%d' % j: sps}, {'terrace%d' % j: 2.5e-9})
+        rxs.append(L.reaction(cls, [sps[0]], [1.], [sps[1]], [1.], [b], [1.]))
+    rx = rxs[0]
+    evs, mism = [], []
+    cov = ['edit:stage0']
+    kc = 'kcal/mol'
+    u2 = case.get('unit', 'J/mol')
+
+    def observe(stage):
+        desc, slope, icpt = b.descriptor, b.slope, b.intercept       # the current public attributes
+        D = _call(evs, 'descriptor', _desc_value(rx, desc, T))
+        if D is None:
+            return
+        got = {}
+        for d, rev in (('fwd', False), ('rev', True)):
+            for u in (kc, u2):
+                v = _call(evs, 'BEP.get_E_act', lambda: b.get_E_act(units=u, reaction=rx, rev=rev, T=T))
+                if v is None:
+                    continue
+                got[(d, u)] = v
+                evs.append({'ev': 'bep', 'desc': desc, 'dir': d, 'units': u, 'slope': to_dec(slope), 'icpt': to_dec(icpt),
+                            'D': to_dec(D), 'uf': to_dec(c.convert_unit(initial=kc, final=u)), 'val': to_dec(v),
+                            'stage': stage})
+        dH = _call(evs, 'get_delta_H', lambda: rx.get_delta_H(units=kc, T=T))
+        dE = _call(evs, 'get_delta_E', lambda: rx.get_delta_E(units=kc, T=T))
+        if None not in (dH, dE) and ('fwd', kc) in got and ('rev', kc) in got:
+            evs.append({'ev': 'bepdiff', 'desc': desc, 'form': kc, 'ef': to_dec(got[('fwd', kc)]),
+                        'er': to_dec(got[('rev', kc)]), 'dH': to_dec(dH), 'dE': to_dec(dE), 'stage': stage})
+        for d, rev in (('fwd', False), ('rev', True)):
+            init = 'products' if rev else 'reactants'
+            via = _call(evs, 'get_delta_H', lambda: rx.get_delta_H(units=kc, T=T, rev=rev, act=True))
+            hts = _call(evs, 'get_H_state', lambda: rx.get_H_state(state='ts', units=kc, T=T))
+            hin = _call(evs, 'get_H_state', lambda: rx.get_H_state(state=init, units=kc, T=T))
+            if None not in (via, hts, hin) and (d, kc) in got:
+                evs.append({'ev': 'bepvia', 'desc': desc, 'dir': d, 'form': kc, 'direct': to_dec(got[(d, kc)]),
+                            'via': to_dec(via), 'hts': to_dec(hts), 'hinit': to_dec(hin), 'stage': stage})
+        if stage > 0:
+            fresh = L.bep(bcls, 'BEP1', slope, icpt, desc)
+            ve, vf = _bep_vector(evs, b, rx, T), _bep_vector(evs, fresh, rx, T)
+            if ve is not None and vf is not None:
+                evs.append({'ev': 'fresh', 'what': 'BEP', 'edited': ['%.17g' % x for x in ve],
+                            'fresh': ['%.17g' % x for x in vf], 'stage': stage, 'attr': last[0]})
+    last = [None]
+    observe(0)
+    for stage, (attr, val) in enumerate(case['edits'], 1):
+        if attr == 'reaction':
+            rx = rxs[1] if rx is rxs[0] else rxs[0]
+            cov.append('edit:reaction')
+        else:
+            if attr == 'descriptor':
+                cov.append('edit:descriptor:' + _edit_class(b.descriptor, val))
+            else:
+                cov.append('edit:%s' % attr)
+            setattr(b, attr, val)
+        last[0] = attr
+        observe(stage)
+    return evs, mism, {'cls': cls, 'bcls': bcls, 'ts': 'bep', 'cov': cov}
+
+
+def exec_rxedit(case):
+    """A SurfaceReaction (or ChemkinReaction) whose kinetic attributes are assigned after
+    construction: what it hands out must equal what a fresh object built from the current public
+    attribute values hands out; a computed Ea is still the clamp."""
+    from pmutt.omkm.units import Units      # noqa
+    rnd = random.Random(case['cseed'])
+    cls = case['cls']
+    T = rnd.choice([298.15, rnd.uniform(300., 1100.)])
+    P = rnd.choice([1.0, 1.01325])
+    reg = case['reg']
+    has_ts = reg != 'none'
+    sd = 10 ** rnd.uniform(-11, -8)
+    hr, hp = _rand_state(rnd)
+    gr, gp = _rand_state(rnd)
+    tot = {'r': (hr, gr), 'p': (hp, gp)}
+    if has_ts:
+        tot['ts'] = (_regime_ts(rnd, reg, hr, hp), _regime_ts(rnd, reg, gr, gp))
+    layout = {'r': [('GAS1', 'G', 1.), ('PT(S)', 'S', 1.)], 'p': [('A(S)', 'S', 1.)]}
+    if has_ts:
+        layout['ts'] = [('TS1(S)', 'S', 1.)]
+    site = L.cat_site('PT', sd)
+    sides, gas, surf = {}, [], []
+    for key, lst in layout.items():
+        st = [x[2] for x in lst]
+        hs = _split(rnd, tot[key][0], st)
+        ss = _split(rnd, tot[key][0] - tot[key][1], st)
+        sps = []
+        for (nm, ph, n), h, s_ in zip(lst, hs, ss):
+            sp = _mk_species('nasa', nm, h, s_, rnd.uniform(0., 4.), T, phase=ph,
+                             cat=site if (cls == 'ChemkinReaction' and ph == 'S') else None)
+            (gas if ph == 'G' else surf).append(sp)
+            sps.append(sp)
+        sides[key] = (sps, st)
+    if cls == 'SurfaceReaction':
+        L.omkm_phases(gas, {'terrace': surf}, {'terrace': sd})
+    attrs = ('is_adsorption', 'A', 'beta', 'Ea', 'sticking_coeff', 'use_motz_wise') if cls == 'SurfaceReaction' \
+        else ('is_adsorption', 'beta', 'sticking_coeff')
+
+    def build(vals):
+        return L.reaction(cls, sides['r'][0], sides['r'][1], sides['p'][0], sides['p'][1],
+                          sides['ts'][0] if has_ts else None, sides['ts'][1] if has_ts else None, **vals)
+    rx = build(dict(case['init']))
+    evs, mism = [], []
+    cov = []
+    u = case.get('actunit', 'kcal/mol')
+
+    def vector(r, method):
+        """everything the object hands out; a raise is part of the answer"""
+        out = []
+
+        def num(fn):
+            try:
+                v = fn()
+                return 'None' if v is None else (str(v) if isinstance(v, bool) else '%.17g' % float(v))
+            except Exception as ex:                  # noqa
+                return 'raise:' + type(ex).__name__
+        if cls == 'SurfaceReaction':
+            def ycall():
+                y = r.to_omkm_yaml(T=T, P=P, act_energy_unit=u, ads_act_method=method)
+                return y, y['sticking-coefficient' if r.is_adsorption else 'rate-constant']
+            for key in ('A', 'b', 'Ea'):
+                out.append(num(lambda: _num_of(ycall()[1][key]) if ycall()[1].get(key) is not None else None))
+            out.append(num(lambda: ycall()[0].get('Motz-Wise')))
+            out.append(num(lambda: float(len(r.to_cti(T=T, P=P, act_energy_unit=u, ads_act_method=method)))))
+            out.append(num(lambda: r.get_A(T=T, include_entropy=False)))
+        else:
+            out.append(num(lambda: r.get_A(T=T, include_entropy=False)))
+            out.append(num(lambda: r.beta))
+            out.append(num(lambda: r.sticking_coeff))
+        out.append(num(lambda: r.get_H_act(units=u, T=T)))
+        out.append(num(lambda: r.get_G_act(units=u, T=T, P=P)))
+        return out
+    for stage, (attr, val) in enumerate(case['edits'], 1):
+        setattr(rx, attr, val)
+        cov.append('rxedit:%s:%s' % (cls, attr))
+        method = case['methods'][stage % len(case['methods'])]
+        fresh = build({a: getattr(rx, a) for a in attrs})
+        ve, vf = vector(rx, method), vector(fresh, method)
+        evs.append({'ev': 'fresh', 'what': cls, 'edited': ve, 'fresh': vf, 'stage': stage, 'attr': attr})
+        # a computed Ea of the edited object is still the clamp
+        if cls == 'SurfaceReaction' and rx.Ea is None:
+            q = 'G' if (not rx.is_adsorption or method == 'get_G_act') else 'H'
+            try:
+                y = rx.to_omkm_yaml(T=T, P=P, act_energy_unit=u, ads_act_method=method)
+                yEa = _num_of(y['sticking-coefficient' if rx.is_adsorption else 'rate-constant']['Ea'])
+            except Exception:                        # noqa  (already part of the vector above)
+                continue
+            st = lambda s_: getattr(rx, 'get_%s_state' % q)(state=s_, units=u, T=T, P=P)      # noqa
+            r_ = _call(evs, 'get_%s_state' % q, lambda: st('reactants'))
+            p_ = _call(evs, 'get_%s_state' % q, lambda: st('products'))
+            ts = _call(evs, 'get_%s_state' % q, lambda: st('ts')) if has_ts else 0.0
+            if None not in (r_, p_, ts):
+                evs.append({'ev': 'clamp', 'cls': cls, 'q': q, 'form': u, 'dir': 'fwd', 'hasTS': has_ts, 'handed': True,
+                            'r': to_dec(r_), 'p': to_dec(p_), 'ts': to_dec(ts), 'val': to_dec(yEa), 'stage': stage})
+    return evs, mism, {'cls': cls, 'ts': 'species' if has_ts else 'none', 'cov': cov}
+
+
+EXEC = {'handed': exec_handed, 'bepedit': exec_bepedit, 'rxedit': exec_rxedit, 'clamp_tlc': exec_clamp_tlc, 'clamp_rand': exec_clamp_rand, 'bep': exec_bep,
         'site': exec_site, 'a_rand': exec_a_rand}
 
 
@@ -854,6 +1064,40 @@ def make_cases(ctx, data, rnd):
                       'omit_op': i % 5 == 2, 'use_q': (i // 2) % 4 == 1, 'cseed': seed()})
     for i in range(ctx.pick(150, 3000)):
         cases.append({'kind': 'a_rand', 'tform': TFORMS[i % 4], 'use_q': i % 5 == 3, 'cseed': seed()})
+    # second-use histories (Kinetics.tla Edit): descriptor across / within the families and to / from
+    # the state descriptors, slope, intercept, another reaction
+    progs = [
+        ('delta_H', [['descriptor', 'rev_delta_H'], ['descriptor', 'delta_H']]),
+        ('rev_delta_E', [['descriptor', 'delta_E'], ['slope', 0.25], ['descriptor', 'rev_delta_H']]),
+        ('delta_H', [['descriptor', 'delta_E'], ['intercept', 0.0], ['reaction', None]]),
+        ('rev_delta_H', [['descriptor', 'rev_delta_E'], ['slope', 1], ['intercept', 33.5]]),
+        ('reactants_H', [['descriptor', 'rev_delta_H'], ['reaction', None], ['descriptor', 'products_E']]),
+        ('delta_E', [['slope', 0.0], ['descriptor', 'rev_delta_E'], ['reaction', None]]),
+        ('rev_delta_H', [['descriptor', 'reactants_E'], ['descriptor', 'delta_H'], ['slope', 0.75]]),
+        ('products_E', [['intercept', 60.0], ['descriptor', 'delta_E'], ['descriptor', 'rev_delta_E']]),
+    ]
+    for i in range(ctx.pick(48, 600)):
+        d0, ed = progs[(i + ctx.seed) % len(progs)]
+        cls, bcls = BEP_COMBOS[(i // 2) % 6]
+        cases.append({'kind': 'bepedit', 'cls': cls, 'bcls': bcls, 'desc': d0, 'edits': ed,
+                      'slope': rnd.choice([0.0, 1.0, rnd.uniform(0., 1.)]), 'icpt': rnd.uniform(0., 60.),
+                      'unit': eunits(1)[0], 'cseed': seed()})
+    rprogs = [
+        ({'is_adsorption': False}, [['Ea', 0.0], ['A', 1.0e13], ['beta', 0.0], ['Ea', None]]),
+        ({'is_adsorption': True}, [['sticking_coeff', 0.0], ['beta', 0.5], ['use_motz_wise', True], ['Ea', 7.5]]),
+        ({'is_adsorption': True, 'sticking_coeff': 0.2}, [['is_adsorption', False], ['A', 0.0], ['A', None]]),
+        ({'is_adsorption': False, 'A': 5.0e12, 'Ea': 3.0}, [['Ea', None], ['A', None], ['beta', None]]),
+        ({'is_adsorption': False, 'sticking_coeff': 0.3}, [['is_adsorption', True], ['sticking_coeff', 0.9], ['Ea', 0.0]]),
+        ({'is_adsorption': True, 'beta': 0.0}, [['beta', 2.0], ['sticking_coeff', 1.0], ['is_adsorption', False]]),
+    ]
+    for i in range(ctx.pick(48, 600)):
+        init, ed = rprogs[(i + ctx.seed) % len(rprogs)]
+        cls = ('SurfaceReaction', 'SurfaceReaction', 'ChemkinReaction')[(i // 6) % 3]
+        if cls == 'ChemkinReaction':
+            init = {k: v for k, v in init.items() if k in ('is_adsorption', 'beta', 'sticking_coeff')}
+            ed = [e for e in ed if e[0] in ('is_adsorption', 'beta', 'sticking_coeff')]
+        cases.append({'kind': 'rxedit', 'cls': cls, 'init': init, 'edits': ed, 'reg': REGIMES[i % len(REGIMES)],
+                      'methods': ['get_H_act', 'get_G_act'], 'actunit': L.ACT_UNITS[i % 4], 'cseed': seed()})
     # what the OpenMKM writers hand out: every option combination of Kinetics.tla's HandedCfg
     hregs = ['none', 'below', 'between', 'above', 'high']
     for j, hc in enumerate(sorted(data['handed'], key=lambda d: sorted(d.items()))):
@@ -886,6 +1130,10 @@ def required_coverage():
     need += ['Aroute:Reaction:entropy', 'Aroute:Reaction:q']
     need += ['Aroute:%s:%s' % (cls, r) for cls in ('ChemkinReaction', 'SurfaceReaction')
              for r in ('entropy', 'q', 'nots', 'noentropy')]
+    need += ['edit:descriptor:' + k for k in ('cross', 'within', 'nondelta')]
+    need += ['edit:slope', 'edit:intercept', 'edit:reaction']
+    need += ['rxedit:SurfaceReaction:' + a for a in ('is_adsorption', 'A', 'beta', 'Ea', 'sticking_coeff', 'use_motz_wise')]
+    need += ['rxedit:ChemkinReaction:' + a for a in ('is_adsorption', 'beta', 'sticking_coeff')]
     need += ['handed:ea:' + x for x in ('given', 'get_H_act', 'get_G_act')]
     need += ['handed:a:' + x for x in ('half', 'given_stick', 'given_A', 'get_A_no_entropy')]
     need += ['handed:b:' + x for x in ('given', 'zero', 'one')]
@@ -907,6 +1155,8 @@ def _signature(case, tags):
         return ['clamp_rand', case['cls'], case['regH'], case['regG'], case['cseed']]
     if case['kind'] == 'bep':
         return ['bep', case['cls'], case['bcls'], case['desc'], case['slope'], case['icpt'], case['cseed']]
+    if case['kind'] in ('bepedit', 'rxedit'):
+        return [case['kind'], case['cls'], case.get('bcls'), case.get('desc'), case.get('init'), case['edits'], case['cseed']]
     if case['kind'] == 'handed':
         return ['handed', sorted(case['c'].items()), case['reg'], case['actunit'], case['aunit'], case['uobj']]
     if case['kind'] == 'site':
@@ -931,7 +1181,7 @@ def _tags_of_event(case, ctags, e):
         t['nosite'] = True
     if e.get('handed'):
         t['handed'] = True
-    for k in ('q', 'dir', 'desc', 'route', 'op', 'fn'):
+    for k in ('q', 'dir', 'desc', 'route', 'op', 'fn', 'attr', 'what', 'stage'):
         if k in e:
             t[k] = e[k]
     if 'form' in e:
@@ -954,12 +1204,16 @@ def run(ctx):
     else:
         # the four TLC runs are independent: run them side by side
         import concurrent.futures as cf
-        with cf.ThreadPoolExecutor(max_workers=4) as ex:
+        with cf.ThreadPoolExecutor(max_workers=6) as ex:
             f_main = ex.submit(ctx.model, 'MC_Kinetics', 'MC_Kinetics', 6)
             f_var = [(cfg, inv, ex.submit(ctx.model, 'MC_Kinetics', cfg, 3, False))
                      for cfg, inv in (('MC_Kinetics_droprev', 'ClampRefines'),
                                       ('MC_Kinetics_urev', 'BepUandHSameBarrier'))]
+            f_edit = ex.submit(ctx.model, 'MC_Kinetics', 'MC_Kinetics_edit', 3)
+            f_var.append(('MC_Kinetics_cachedflag', 'EditedEqualsFresh',
+                          ex.submit(ctx.model, 'MC_Kinetics', 'MC_Kinetics_cachedflag', 2, False)))
             f_cases = ex.submit(core.tlc_cases, 'MC_KineticsCases', 'MC_KineticsCases')
+            f_edit.result()
             f_main.result()
             for cfg, inv, f in f_var:
                 r = f.result()
@@ -1010,7 +1264,7 @@ def run(ctx):
     ctx.coverage['events'] = per_ev
     ctx.coverage['input_classes'] = dict(sorted(cov.items()))
     if ctx.replay_case is None:
-        for need in ('clamp', 'bep', 'bepdiff', 'bepvia', 'bepuh', 'A:entropy', 'A:nots', 'A:q'):
+        for need in ('clamp', 'bep', 'bepdiff', 'bepvia', 'bepuh', 'A:entropy', 'A:nots', 'A:q', 'fresh'):
             if per_ev.get(need, 0) == 0:
                 raise core.MachineryError('vacuous run: no %s observation was recorded' % need)
         missing = [k for k in required_coverage() if cov.get(k, 0) == 0]
